@@ -175,6 +175,7 @@ STUB_DESCRIPTIONS = [
     'loop.create_unix_server / loop.subprocess_exec -> simulator (spawns simulated worker processes)',
     'pickle module attribute of pool.py / worker.py / multitenant_worker.py / worker_proc.py -> pass-through proxy with fault points',
     'time.monotonic, os.kill of pool.py -> simulated clock / simulated process table',
+    'remote strata: loop.create_connection -> simulated network link (per-direction FIFO byte streams, drawn latency, fragmentation, drops, refused connects); os.getpid/os.environ of server.py -> constants',
 ]
 
 
